@@ -1278,4 +1278,790 @@ theorem ulpF32_le (x : Rat) (h : pow2 (-126) ≤ |x|) : ulpF32 x ≤ |x| * pow2 
   · rw [max_eq_left hc, ← pow2_eq_zpow]; exact hlow
 
 
+/-! ## Part V — the `"Exposure time (ms)"` key -/
+
+/-! ### float64 rounding (the `"Exposure time (ms)"` key) -/
+
+theorem ulpF64_pos (x : Rat) : 0 < ulpF64 x := pow2_pos _
+
+theorem roundF64_zero : roundF64 0 = 0 := by unfold roundF64; rw [if_pos rfl]
+
+/-- Rounding error of one double operation: at most half a unit in the last place. -/
+theorem roundF64_error (x : Rat) : |roundF64 x - x| ≤ ulpF64 x / 2 := by
+  unfold roundF64
+  by_cases hx : x = 0
+  · rw [if_pos hx, hx]; simp; have := ulpF64_pos 0; linarith
+  · rw [if_neg hx]
+    have hu := ulpF64_pos x
+    have h := (roundHalfEven_spec (x / ulpF64 x)).1
+    have e : (roundHalfEven (x / ulpF64 x) : Rat) * ulpF64 x - x =
+        ((roundHalfEven (x / ulpF64 x) : Rat) - x / ulpF64 x) * ulpF64 x := by
+      field_simp
+    rw [e, abs_mul, abs_of_pos hu]
+    calc |(roundHalfEven (x / ulpF64 x) : Rat) - x / ulpF64 x| * ulpF64 x ≤ 1 / 2 * ulpF64 x :=
+          mul_le_mul_of_nonneg_right h (le_of_lt hu)
+      _ = ulpF64 x / 2 := by ring
+
+theorem ulpF64_le (x : Rat) (h : pow2 (-1022) ≤ |x|) : ulpF64 x ≤ |x| * pow2 (-52) := by
+  have hx : x ≠ 0 := by
+    intro e; rw [e, abs_zero] at h; exact absurd h (not_le.mpr (pow2_pos _))
+  have hlow := pow2_ilog2_le x hx
+  unfold ulpF64
+  rw [pow2_eq_zpow, pow2_eq_zpow]
+  rw [zpow_sub₀ (by norm_num), zpow_neg, div_eq_mul_inv]
+  apply mul_le_mul_of_nonneg_right _ (by positivity)
+  rcases le_total (ilog2 x) (-1022) with hc | hc
+  · rw [max_eq_right hc, ← pow2_eq_zpow]; exact h
+  · rw [max_eq_left hc, ← pow2_eq_zpow]; exact hlow
+
+/-- `u = 2^-53`, the unit round-off of float64. -/
+def u64 : Rat := 1 / 9007199254740992
+
+theorem pow2_m53 : pow2 (-52) / 2 = u64 := by
+  rw [pow2_eq_zpow]; unfold u64; norm_num [zpow_neg]
+
+theorem pow2_m1022_le : pow2 (-1022) ≤ 1 / 1073741824 := by
+  rw [pow2_eq_zpow]
+  have : (2 : Rat) ^ (-1022 : Int) ≤ (2 : Rat) ^ (-30 : Int) := zpow_le_zpow_right₀ (by norm_num) (by norm_num)
+  have h2 : (2 : Rat) ^ (-30 : Int) = 1 / 1073741824 := by norm_num [zpow_neg]
+  rw [h2] at this
+  exact this
+
+/-- float64 away from the subnormals: relative rounding error at most `2^-53`. -/
+theorem f64_relative_error (x : Rat) (h : 1 / 1073741824 ≤ |x|) : |roundF64 x - x| ≤ |x| * u64 := by
+  have h1 := roundF64_error x
+  have h2 := ulpF64_le x (le_trans pow2_m1022_le h)
+  rw [← pow2_m53]
+  calc |roundF64 x - x| ≤ ulpF64 x / 2 := h1
+    _ ≤ |x| * pow2 (-52) / 2 := by linarith
+    _ = |x| * (pow2 (-52) / 2) := by ring
+
+/-- Integers below `2^53` in magnitude are doubles: `np.int64 → float64` is exact. -/
+theorem roundF64_int_exact (n : Int) (h : n.natAbs < 2 ^ 53) : roundF64 (n : Rat) = (n : Rat) := by
+  unfold roundF64
+  by_cases h0 : (n : Rat) = 0
+  · rw [if_pos h0, h0]
+  · rw [if_neg h0]
+    have hn : n ≠ 0 := by intro e; apply h0; rw [e]; rfl
+    have hl : n.natAbs.log2 < 53 := (Nat.log2_lt (by omega)).mpr h
+    have hi := ilog2_int_le n
+    have hk : max (ilog2 (n : Rat)) (-1022) - 52 ≤ 0 := by omega
+    unfold ulpF64
+    generalize max (ilog2 (n : Rat)) (-1022) - 52 = k at hk
+    obtain ⟨m, hm⟩ : ∃ m : Nat, k = -(m : Int) := ⟨(-k).toNat, by omega⟩
+    subst hm
+    rw [pow2_eq_zpow, zpow_neg, zpow_natCast]
+    have e : (n : Rat) / ((2 : Rat) ^ m)⁻¹ = ((n * 2 ^ m : Int) : Rat) := by
+      push_cast; field_simp
+    rw [e, roundHalfEven_int]
+    push_cast
+    field_simp
+
+/-- A value closer than one half to an integer rounds to it. -/
+theorem roundHalfEven_of_close (y : Rat) (n : Int) (h : |y - n| < 1 / 2) : roundHalfEven y = n := by
+  have h1 := (roundHalfEven_spec y).1
+  have a1 := abs_le.mp h1
+  have a2 := abs_lt.mp h
+  have lo : ((roundHalfEven y : Int) : Rat) - n < 1 := by linarith [a1.2, a2.1]
+  have hi : -1 < ((roundHalfEven y : Int) : Rat) - n := by linarith [a1.1, a2.2]
+  have lo' : roundHalfEven y - n < 1 := by exact_mod_cast lo
+  have hi' : -1 < roundHalfEven y - n := by exact_mod_cast hi
+  omega
+
+/-- The double `1e-6` is within `2^-53` (relative) of `10^-6`. -/
+theorem c1em6_close : |c1em6 * 1000000 - 1| ≤ u64 := by
+  have h := f64_relative_error (1 / 1000000) (by rw [abs_of_pos (by norm_num)]; norm_num)
+  rw [abs_of_pos (by norm_num : (0 : Rat) < 1 / 1000000)] at h
+  have e : c1em6 * 1000000 - 1 = (roundF64 (1 / 1000000) - 1 / 1000000) * 1000000 := by
+    unfold c1em6; ring
+  rw [e, abs_mul, abs_of_pos (by norm_num : (0 : Rat) < 1000000)]
+  calc |roundF64 (1 / 1000000) - 1 / 1000000| * 1000000 ≤ (1 / 1000000 * u64) * 1000000 :=
+        mul_le_mul_of_nonneg_right h (by norm_num)
+    _ = u64 := by ring
+
+
+/-- The arithmetic heart of the exposure round trip, over the rationals: `c ≈ 10^-6`, `y ≈ e·c`, `z ≈ 10^6·y`, each
+    within the unit round-off, and `|e| ≤ 10^15`: then `z` is closer than one half to `e`. -/
+theorem exposure_chain (e c y z : Rat) (hA1 : 1 ≤ |e|) (hA2 : |e| ≤ 1000000000000000)
+    (hc : |c * 1000000 - 1| ≤ u64)
+    (hy : 1 / 1073741824 ≤ |e * c| → |y - e * c| ≤ |e * c| * u64)
+    (hz : 1 / 1073741824 ≤ |1000000 * y| → |z - 1000000 * y| ≤ |1000000 * y| * u64) :
+    |z - e| < 1 / 2 := by
+  unfold u64 at *
+  have h1 : |e * c * 1000000 - e| ≤ |e| * (1 / 9007199254740992) := by
+    rw [show e * c * 1000000 - e = e * (c * 1000000 - 1) by ring, abs_mul]
+    exact mul_le_mul_of_nonneg_left hc (abs_nonneg e)
+  have hB : |e * c| * 1000000 = |e * c * 1000000| := by
+    rw [abs_mul (e * c) 1000000, abs_of_pos (by norm_num : (0 : Rat) < 1000000)]
+  have b1 := abs_sub_abs_le_abs_sub (e * c * 1000000) e
+  have b2 := abs_sub_abs_le_abs_sub e (e * c * 1000000)
+  rw [abs_sub_comm e (e * c * 1000000)] at b2
+  have hy' := hy (by linarith)
+  have h2 : |1000000 * y - e * c * 1000000| ≤ |e * c * 1000000| * (1 / 9007199254740992) := by
+    rw [show 1000000 * y - e * c * 1000000 = (y - e * c) * 1000000 by ring, abs_mul,
+      abs_of_pos (by norm_num : (0 : Rat) < 1000000), ← hB]
+    have := mul_le_mul_of_nonneg_right hy' (by norm_num : (0 : Rat) ≤ 1000000)
+    linarith
+  have c1 := abs_sub_abs_le_abs_sub (1000000 * y) (e * c * 1000000)
+  have c2 := abs_sub_abs_le_abs_sub (e * c * 1000000) (1000000 * y)
+  rw [abs_sub_comm (e * c * 1000000) (1000000 * y)] at c2
+  have hz' := hz (by linarith)
+  have t1 : |z - e| ≤ |z - 1000000 * y| + |1000000 * y - e * c * 1000000| + |e * c * 1000000 - e| := by
+    have := abs_add_three (z - 1000000 * y) (1000000 * y - e * c * 1000000) (e * c * 1000000 - e)
+    rw [show z - 1000000 * y + (1000000 * y - e * c * 1000000) + (e * c * 1000000 - e) = z - e by ring] at this
+    exact this
+  linarith
+
+/-- ns → `"Exposure time (ms)"` (float64) → ns is the identity for every exposure up to `10^15` ns (11.5 days). -/
+theorem exposure_roundtrip_core (e : Int) (h : e.natAbs ≤ 10 ^ 15) : exposureNs (exposureMs e) = e := by
+  by_cases he : e = 0
+  · subst he
+    unfold exposureNs exposureMs
+    rw [Int.cast_zero, roundF64_zero, zero_mul, roundF64_zero, mul_zero, roundF64_zero]
+    exact roundHalfEven_int 0
+  · have h53 : e.natAbs < 2 ^ 53 := lt_of_le_of_lt h (by norm_num)
+    unfold exposureNs exposureMs
+    rw [roundF64_int_exact e h53]
+    apply roundHalfEven_of_close
+    have hA1 : 1 ≤ |(e : Rat)| := by
+      have : (1 : Int) ≤ |e| := Int.one_le_abs he
+      exact_mod_cast this
+    have hA2 : |(e : Rat)| ≤ 1000000000000000 := by
+      have : |e| ≤ (1000000000000000 : Int) := by
+        rw [Int.abs_eq_natAbs]; exact_mod_cast h
+      exact_mod_cast this
+    exact exposure_chain (e : Rat) c1em6 _ _ hA1 hA2 c1em6_close
+      (fun hn => f64_relative_error _ hn) (fun hn => f64_relative_error _ hn)
+
+
+/-- The millisecond value written is the exposure to a relative `2^-51` (two double operations). -/
+theorem exposure_ms_close_core (e : Int) (h : e.natAbs < 2 ^ 53) :
+    |exposureMs e * 1000000 - e| ≤ |(e : Rat)| * (1 / 2251799813685248) := by
+  by_cases he : e = 0
+  · subst he
+    unfold exposureMs
+    rw [Int.cast_zero, roundF64_zero, zero_mul, roundF64_zero]
+    norm_num
+  · unfold exposureMs
+    rw [roundF64_int_exact e h]
+    have hA1 : 1 ≤ |(e : Rat)| := by
+      have : (1 : Int) ≤ |e| := Int.one_le_abs he
+      exact_mod_cast this
+    have hc := c1em6_close
+    generalize c1em6 = c at hc ⊢
+    generalize hE : (e : Rat) = E at hA1 ⊢
+    unfold u64 at hc
+    have h1 : |E * c * 1000000 - E| ≤ |E| * (1 / 9007199254740992) := by
+      rw [show E * c * 1000000 - E = E * (c * 1000000 - 1) by ring, abs_mul]
+      exact mul_le_mul_of_nonneg_left hc (abs_nonneg E)
+    have hB : |E * c| * 1000000 = |E * c * 1000000| := by
+      rw [abs_mul (E * c) 1000000, abs_of_pos (by norm_num : (0 : Rat) < 1000000)]
+    have b1 := abs_sub_abs_le_abs_sub (E * c * 1000000) E
+    have b2 := abs_sub_abs_le_abs_sub E (E * c * 1000000)
+    rw [abs_sub_comm E (E * c * 1000000)] at b2
+    have hy' := f64_relative_error (E * c) (by linarith)
+    unfold u64 at hy'
+    have h2 : |roundF64 (E * c) * 1000000 - E * c * 1000000| ≤ |E * c * 1000000| * (1 / 9007199254740992) := by
+      rw [show roundF64 (E * c) * 1000000 - E * c * 1000000 = (roundF64 (E * c) - E * c) * 1000000 by ring, abs_mul,
+        abs_of_pos (by norm_num : (0 : Rat) < 1000000), ← hB]
+      have := mul_le_mul_of_nonneg_right hy' (by norm_num : (0 : Rat) ≤ 1000000)
+      linarith
+    have t1 : |roundF64 (E * c) * 1000000 - E| ≤
+        |roundF64 (E * c) * 1000000 - E * c * 1000000| + |E * c * 1000000 - E| := by
+      have := abs_add_le (roundF64 (E * c) * 1000000 - E * c * 1000000) (E * c * 1000000 - E)
+      rw [show roundF64 (E * c) * 1000000 - E * c * 1000000 + (E * c * 1000000 - E)
+        = roundF64 (E * c) * 1000000 - E by ring] at this
+      exact this
+    linarith
+
+/-- Reading back through the float key is reading back the integer, when every exposure is at most `10^15` ns. -/
+theorem readBackF_eq {α} (out : List (OutPage α)) (h : ∀ o ∈ out, o.exposure.natAbs ≤ 10 ^ 15) :
+    readBackF out = readBack out := by
+  unfold readBackF readBack
+  congr 1
+  apply List.map_congr_left
+  intro o ho
+  rw [exposure_roundtrip_core o.exposure (h o ho)]
+
+/-! ## Part VI — tuple index, invariants of selection programs -/
+
+/-- Every raw page of the file has `H` rows of `W` pixels. -/
+def File.Shaped {α} (f : File α) (H W : Nat) : Prop :=
+  ∀ p ∈ f.pages, p.img.length = H ∧ ∀ row ∈ p.img, row.length = W
+
+/-! ## tuple index = crop, then frame item -/
+
+theorem sliceFrames_roi (s : Stack) (r : Roi) (a b c : Option Int) :
+    Stack.sliceFrames { s with roi := r } a b c = (s.sliceFrames a b c).map fun t => { t with roi := r } := by
+  obtain ⟨s0, s1, st, roi⟩ := s
+  unfold Stack.sliceFrames Stack.numFrames
+  dsimp only
+  split_ifs <;> rfl
+
+theorem index_roi (s : Stack) (r : Roi) (i : Int) :
+    Stack.index { s with roi := r } i = (s.index i).map fun t => { t with roi := r } := by
+  obtain ⟨s0, s1, st, roi⟩ := s
+  unfold Stack.index Stack.numFrames
+  dsimp only
+  split_ifs <;> rfl
+
+theorem frameItem_roi (s : Stack) (r : Roi) (f : Item) :
+    Stack.frameItem { s with roi := r } f = (s.frameItem f).map fun t => { t with roi := r } := by
+  cases f with
+  | int i => exact index_roi s r i
+  | slice a b c => exact sliceFrames_roi s r a b c
+
+/-- `stack[f, rows, cols]` is `stack.crop_by_pixels(cols…, rows…)[f]`, refusals included (the crop is tried first). -/
+theorem tuple_index_eq (s : Stack) (f rows cols : Item) (x0 x1 y0 y1 : Option Int)
+    (hr : interpretCrop rows = .ok (y0, y1)) (hc : interpretCrop cols = .ok (x0, x1)) :
+    s.getitemTuple [f, rows, cols] = (s.cropPixels x0 x1 y0 y1).bind fun s' => s'.frameItem f := by
+  unfold Stack.getitemTuple Stack.cropPixels
+  simp only [List.length_cons, List.length_nil, List.getElem?_cons_zero, List.getElem?_cons_succ, cropOf, hr, hc]
+  simp only [bind, Except.bind, Except.map, pure, Except.pure]
+  cases hcrop : s.roi.crop x0 x1 y0 y1 with
+  | error e => rfl
+  | ok r =>
+    simp only []
+    have key : Stack.frameItem { s0 := s.s0, s1 := s.s1, st := s.st, roi := r } f
+        = (s.frameItem f).map fun t => { t with roi := r } := frameItem_roi s r f
+    rw [key]
+    cases s.frameItem f <;> rfl
+
+
+/-! ## the hypotheses of the selection theorems are established by the code -/
+
+/-- What the selection / re-export theorems assume of a stack over a file of `H × W` pages. -/
+def Stack.Inv {α} (s : Stack) (f : File α) (H W : Nat) : Prop :=
+  0 < s.st ∧ s.inFile f.pages.length = true ∧ s.roi.Within H W
+
+/-- `ImageStack(file)` establishes them. -/
+theorem ofFile_inv {α} (f : File α) (H W : Nat) (hf : f.Shaped H W) (hne : f.pages ≠ []) (hH : 0 < H) (hW : 0 < W) :
+    (Stack.ofFile f).Inv f H W := by
+  obtain ⟨pages, leg⟩ := f
+  cases pages with
+  | nil => exact absurd rfl hne
+  | cons p0 ps =>
+    have h0 := hf p0 (List.mem_cons_self ..)
+    have hrow : ((p0.img.head?).map List.length).getD 0 = W := by
+      cases hi : p0.img with
+      | nil => rw [hi] at h0; simp at h0; omega
+      | cons r0 rs => simp [h0.2 r0 (by rw [hi]; exact List.mem_cons_self ..)]
+    have hst : Stack.ofFile (⟨p0 :: ps, leg⟩ : File α) = ⟨0, ((p0 :: ps).length : Nat), 1, ⟨0, (W : Nat), 0, (H : Nat)⟩⟩ := by
+      unfold Stack.ofFile
+      simp [h0.1, hrow]
+    rw [hst]
+    refine ⟨by simp, ?_, ?_⟩
+    · unfold Stack.inFile
+      rw [frames_full, List.all_eq_true]
+      intro q hq
+      rw [List.mem_map] at hq
+      obtain ⟨i, hi, rfl⟩ := hq
+      rw [List.mem_range] at hi
+      simp only [Bool.and_eq_true, decide_eq_true_eq]
+      omega
+    · unfold Roi.Within; simp; omega
+
+/-- A frame slice that is accepted had a positive step (zero: `ValueError`; negative: "Slice is empty" or "Reverse
+    slicing is not supported"). -/
+theorem sliceFrames_ok_step (s : Stack) (hst : 0 < s.st) (a b c : Option Int) (s' : Stack)
+    (h : s.sliceFrames a b c = .ok s') : 0 < c.getD 1 := by
+  obtain ⟨s0, s1, st, roi⟩ := s
+  unfold Stack.sliceFrames at h
+  dsimp only at h
+  by_contra hc
+  have hle : c.getD 1 ≤ 0 := not_lt.mp hc
+  split_ifs at h with h0 h1 h2
+  have : st * c.getD 1 < 0 := by
+    have : c.getD 1 < 0 := by omega
+    exact Int.mul_neg_of_pos_of_neg hst this
+  exact h2 this
+
+theorem sliceFrames_inv {α} (s : Stack) (f : File α) (H W : Nat) (hi : s.Inv f H W) (a b c : Option Int) (s' : Stack)
+    (h : s.sliceFrames a b c = .ok s') : s'.Inv f H W := by
+  obtain ⟨hst, hin, hr⟩ := hi
+  have hc := sliceFrames_ok_step s hst a b c s' h
+  have h0 := slice_refines s hst a b c hc
+  rw [h] at h0
+  simp only at h0
+  obtain ⟨hfr, _, hst', hroi⟩ := h0
+  refine ⟨hst', ?_, by rw [hroi]; exact hr⟩
+  unfold Stack.inFile at hin ⊢
+  rw [List.all_eq_true] at hin ⊢
+  intro p hp
+  rw [hfr] at hp
+  exact hin p (mem_of_mem_pySliceStep hp)
+
+theorem index_inv {α} (s : Stack) (f : File α) (H W : Nat) (hi : s.Inv f H W) (i : Int) (s' : Stack)
+    (h : s.index i = .ok s') : s'.Inv f H W := by
+  obtain ⟨hst, hin, hr⟩ := hi
+  have h0 := index_refines s hst i
+  rw [h] at h0
+  cases hp : pyIndex s.frames i with
+  | none => rw [hp] at h0; exact absurd h0 id
+  | some p =>
+    rw [hp] at h0
+    simp only at h0
+    obtain ⟨hfr, hst', hroi⟩ := h0
+    have hmem : p ∈ s.frames := by
+      unfold pyIndex at hp
+      split_ifs at hp
+      · exact List.mem_of_getElem? hp
+      · exact List.mem_of_getElem? hp
+    refine ⟨by rw [hst']; exact hst, ?_, by rw [hroi]; exact hr⟩
+    unfold Stack.inFile at hin ⊢
+    rw [List.all_eq_true] at hin ⊢
+    intro q hq
+    rw [hfr, List.mem_singleton] at hq
+    subst hq
+    exact hin _ hmem
+
+theorem frameItem_inv {α} (s : Stack) (f : File α) (H W : Nat) (hi : s.Inv f H W) (it : Item) (s' : Stack)
+    (h : s.frameItem it = .ok s') : s'.Inv f H W := by
+  cases it with
+  | int i => exact index_inv s f H W hi i s' h
+  | slice a b c => exact sliceFrames_inv s f H W hi a b c s' h
+
+theorem roi_crop_within (r : Roi) (H W : Nat) (hr : r.Within H W) (x0 x1 y0 y1 : Option Int) (r' : Roi)
+    (h : r.crop x0 x1 y0 y1 = .ok r') : r'.Within H W := by
+  have := roi_crop_refines (List.replicate H (List.replicate W ())) H W (by simp)
+    (by intro row hrow; rw [List.mem_replicate] at hrow; rw [hrow.2]; simp) r hr x0 x1 y0 y1
+  rw [h] at this
+  exact this.2
+
+theorem cropPixels_inv {α} (s : Stack) (f : File α) (H W : Nat) (hi : s.Inv f H W) (x0 x1 y0 y1 : Option Int)
+    (s' : Stack) (h : s.cropPixels x0 x1 y0 y1 = .ok s') : s'.Inv f H W := by
+  obtain ⟨hst, hin, hr⟩ := hi
+  unfold Stack.cropPixels at h
+  cases hc : s.roi.crop x0 x1 y0 y1 with
+  | error e => rw [hc] at h; cases h
+  | ok r' =>
+    rw [hc] at h
+    cases h
+    exact ⟨hst, hin, roi_crop_within s.roi H W hr x0 x1 y0 y1 r' hc⟩
+
+/-- Whatever a tuple index accepts is a crop of the ROI and a frame item. -/
+theorem getitemTuple_ok (s : Stack) (items : List Item) (s' : Stack) (h : s.getitemTuple items = .ok s') :
+    ∃ fi x0 x1 y0 y1 r t, s.roi.crop x0 x1 y0 y1 = .ok r ∧ s.frameItem fi = .ok t ∧ s' = { t with roi := r } := by
+  unfold Stack.getitemTuple at h
+  cases items with
+  | nil => cases h
+  | cons fi rest =>
+    simp only at h
+    split_ifs at h
+    simp only [bind, Except.bind, pure, Except.pure] at h
+    cases hrows : cropOf rest[0]? with
+    | error e => rw [hrows] at h; cases h
+    | ok rows =>
+      rw [hrows] at h
+      simp only at h
+      cases hcols : cropOf rest[1]? with
+      | error e => rw [hcols] at h; cases h
+      | ok cols =>
+        rw [hcols] at h
+        simp only at h
+        cases hcrop : s.roi.crop cols.1 cols.2 rows.1 rows.2 with
+        | error e => rw [hcrop] at h; cases h
+        | ok r =>
+          rw [hcrop] at h
+          simp only at h
+          cases hfi : s.frameItem fi with
+          | error e => rw [hfi] at h; cases h
+          | ok t =>
+            rw [hfi] at h
+            simp only [Except.ok.injEq] at h
+            exact ⟨fi, cols.1, cols.2, rows.1, rows.2, r, t, hcrop, hfi, h.symm⟩
+
+theorem getitemTuple_inv {α} (s : Stack) (f : File α) (H W : Nat) (hi : s.Inv f H W) (items : List Item) (s' : Stack)
+    (h : s.getitemTuple items = .ok s') : s'.Inv f H W := by
+  obtain ⟨fi, x0, x1, y0, y1, r, t, hcrop, hfi, rfl⟩ := getitemTuple_ok s items s' h
+  obtain ⟨hst, hin, _⟩ := frameItem_inv s f H W hi fi t hfi
+  exact ⟨hst, hin, roi_crop_within s.roi H W hi.2.2 x0 x1 y0 y1 r hcrop⟩
+
+/-- Steps of the public API (everything but the private `from_dataset` bookkeeping). -/
+def Op.isPublic : Op → Bool
+  | .dataset .. => false
+  | _ => true
+
+theorem applyOp_inv {α} (s : Stack) (f : File α) (H W : Nat) (hi : s.Inv f H W) (op : Op) (hp : op.isPublic = true)
+    (s' : Stack) (h : s.applyOp op = .ok s') : s'.Inv f H W := by
+  cases op with
+  | slice a b c => exact sliceFrames_inv s f H W hi a b c s' h
+  | index i => exact index_inv s f H W hi i s' h
+  | crop x0 x1 y0 y1 => exact cropPixels_inv s f H W hi x0 x1 y0 y1 s' h
+  | tuple items => exact getitemTuple_inv s f H W hi items s' h
+  | dataset a b c => cases hp
+
+theorem run_inv {α} (f : File α) (H W : Nat) (ops : List Op) : ∀ (s : Stack), s.Inv f H W →
+    (∀ op ∈ ops, op.isPublic = true) → ∀ s', s.run ops = .ok s' → s'.Inv f H W := by
+  induction ops with
+  | nil => intro s hi _ s' h; unfold Stack.run at h; cases h; exact hi
+  | cons op rest ih =>
+    intro s hi hp s' h
+    unfold Stack.run at h
+    cases ha : s.applyOp op with
+    | error e => rw [ha] at h; cases h
+    | ok s1 =>
+      rw [ha] at h
+      exact ih s1 (applyOp_inv s f H W hi op (hp op (List.mem_cons_self ..)) s1 ha)
+        (fun o ho => hp o (List.mem_cons_of_mem _ ho)) s' h
+
+/-! ## Part VII — `Kymo._tiff_timestamp_ranges` -/
+
+theorem foldl_imin_spec (l : List Int) : ∀ m : Int,
+    (l.foldl (fun m y => if y < m then y else m) m = m ∨ l.foldl (fun m y => if y < m then y else m) m ∈ l) ∧
+    l.foldl (fun m y => if y < m then y else m) m ≤ m ∧
+    ∀ v ∈ l, l.foldl (fun m y => if y < m then y else m) m ≤ v := by
+  induction l with
+  | nil => intro m; simp
+  | cons x xs ih =>
+    intro m
+    simp only [List.foldl_cons]
+    obtain ⟨h1, h2, h3⟩ := ih (if x < m then x else m)
+    by_cases hx : x < m
+    · simp only [hx, if_true] at h1 h2 h3 ⊢
+      refine ⟨?_, by omega, ?_⟩
+      · rcases h1 with h | h
+        · right; rw [h]; exact List.mem_cons_self ..
+        · right; exact List.mem_cons_of_mem _ h
+      · intro v hv
+        rcases List.mem_cons.mp hv with rfl | hv
+        · exact h2
+        · exact h3 v hv
+    · simp only [hx, if_false] at h1 h2 h3 ⊢
+      refine ⟨?_, h2, ?_⟩
+      · rcases h1 with h | h
+        · left; exact h
+        · right; exact List.mem_cons_of_mem _ h
+      · intro v hv
+        rcases List.mem_cons.mp hv with rfl | hv
+        · omega
+        · exact h3 v hv
+
+theorem foldl_imax_spec (l : List Int) : ∀ m : Int,
+    (l.foldl (fun m y => if m < y then y else m) m = m ∨ l.foldl (fun m y => if m < y then y else m) m ∈ l) ∧
+    m ≤ l.foldl (fun m y => if m < y then y else m) m ∧
+    ∀ v ∈ l, v ≤ l.foldl (fun m y => if m < y then y else m) m := by
+  induction l with
+  | nil => intro m; simp
+  | cons x xs ih =>
+    intro m
+    simp only [List.foldl_cons]
+    obtain ⟨h1, h2, h3⟩ := ih (if m < x then x else m)
+    by_cases hx : m < x
+    · simp only [hx, if_true] at h1 h2 h3 ⊢
+      refine ⟨?_, by omega, ?_⟩
+      · rcases h1 with h | h
+        · right; rw [h]; exact List.mem_cons_self ..
+        · right; exact List.mem_cons_of_mem _ h
+      · intro v hv
+        rcases List.mem_cons.mp hv with rfl | hv
+        · exact h2
+        · exact h3 v hv
+    · simp only [hx, if_false] at h1 h2 h3 ⊢
+      refine ⟨?_, h2, ?_⟩
+      · rcases h1 with h | h
+        · left; exact h
+        · right; exact List.mem_cons_of_mem _ h
+      · intro v hv
+        rcases List.mem_cons.mp hv with rfl | hv
+        · omega
+        · exact h3 v hv
+
+/-- All starts and stops of the line ranges (`np.array(ranges)` flattened). -/
+def endpoints (lines : List (Int × Int)) : List Int := lines.flatMap fun r => [r.1, r.2]
+
+theorem mem_endpoints (lines : List (Int × Int)) (v : Int) :
+    v ∈ endpoints lines ↔ ∃ r ∈ lines, v = r.1 ∨ v = r.2 := by
+  unfold endpoints
+  simp [List.mem_flatMap]
+
+/-- `kymoRange` is the minimum and the maximum over all endpoints. -/
+theorem kymoRange_spec (lines : List (Int × Int)) (hne : lines ≠ []) :
+    ∃ lo hi, kymoRange lines = some (lo, hi) ∧ lo ∈ endpoints lines ∧ hi ∈ endpoints lines ∧
+      ∀ v ∈ endpoints lines, lo ≤ v ∧ v ≤ hi := by
+  unfold kymoRange
+  cases hfl : (lines.flatMap fun r => [r.1, r.2]) with
+  | nil =>
+    exfalso
+    cases lines with
+    | nil => exact hne rfl
+    | cons r rs => simp at hfl
+  | cons x xs =>
+    have he : endpoints lines = x :: xs := hfl
+    obtain ⟨a1, a2, a3⟩ := foldl_imin_spec xs x
+    obtain ⟨b1, b2, b3⟩ := foldl_imax_spec xs x
+    refine ⟨_, _, rfl, ?_, ?_, ?_⟩
+    · rw [he]
+      rcases a1 with h | h
+      · rw [h]; exact List.mem_cons_self ..
+      · exact List.mem_cons_of_mem _ h
+    · rw [he]
+      rcases b1 with h | h
+      · rw [h]; exact List.mem_cons_self ..
+      · exact List.mem_cons_of_mem _ h
+    · intro v hv
+      rw [he] at hv
+      rcases List.mem_cons.mp hv with rfl | hv
+      · exact ⟨a2, b2⟩
+      · exact ⟨a3 v hv, b3 v hv⟩
+
+
+/-- Lines in time order, each with `start ≤ stop`: the single frame runs from the first start to the last stop. -/
+theorem kymoRange_ordered (l : List (Int × Int)) (hne : l ≠ []) (hwf : ∀ r ∈ l, r.1 ≤ r.2)
+    (hs : l.Pairwise fun r s => r.1 ≤ s.1 ∧ r.2 ≤ s.2) :
+    kymoRange l = some ((l.head hne).1, (l.getLast hne).2) := by
+  obtain ⟨lo, hi, hk, hlo, hhi, hall⟩ := kymoRange_spec l hne
+  have hfirst : ∀ r ∈ l, (l.head hne).1 ≤ r.1 := by
+    cases l with
+    | nil => exact absurd rfl hne
+    | cons h t =>
+      intro r hr
+      rcases List.mem_cons.mp hr with rfl | hr
+      · exact le_refl _
+      · exact ((List.pairwise_cons.mp hs).1 r hr).1
+  have hlast : ∀ r ∈ l, r.2 ≤ (l.getLast hne).2 := by
+    intro r hr
+    have hsplit := List.dropLast_append_getLast hne
+    rw [← hsplit] at hs hr
+    rcases List.mem_append.mp hr with hr | hr
+    · exact ((List.pairwise_append.mp hs).2.2 r hr _ (List.mem_singleton_self _)).2
+    · rw [List.mem_singleton] at hr; rw [hr]
+  have hhead_mem : l.head hne ∈ l := List.head_mem hne
+  have hlast_mem : l.getLast hne ∈ l := List.getLast_mem hne
+  have e1 : lo = (l.head hne).1 := by
+    have h1 := (hall _ ((mem_endpoints l _).mpr ⟨_, hhead_mem, Or.inl rfl⟩)).1
+    obtain ⟨r, hr, hv⟩ := (mem_endpoints l lo).mp hlo
+    have := hfirst r hr
+    have := hwf r hr
+    rcases hv with hv | hv <;> omega
+  have e2 : hi = (l.getLast hne).2 := by
+    have h1 := (hall _ ((mem_endpoints l _).mpr ⟨_, hlast_mem, Or.inr rfl⟩)).2
+    obtain ⟨r, hr, hv⟩ := (mem_endpoints l hi).mp hhi
+    have := hlast r hr
+    have := hwf r hr
+    rcases hv with hv | hv <;> omega
+  rw [hk, e1, e2]
+
+/-! ## Part VIII — `export_tiff` as a whole -/
+
+/-- The cast of all frames is the cast of the flattened array, cut back into frames. -/
+theorem castFrames_flatten (d : DType) (clip : Bool) (frames : List (List Rat)) :
+    (castFrames d clip frames).map List.flatten = castImage d clip frames.flatten := by
+  unfold castFrames castImage
+  cases listMin frames.flatten <;> cases listMax frames.flatten <;> try rfl
+  simp only
+  split_ifs <;> simp [Except.map, List.map_flatten, List.map_map]
+
+theorem castFrames_length (d : DType) (clip : Bool) (frames fr : List (List Rat))
+    (h : castFrames d clip frames = .ok fr) : fr.length = frames.length := by
+  unfold castFrames at h
+  cases hmin : listMin frames.flatten <;> cases hmax : listMax frames.flatten <;> rw [hmin, hmax] at h <;>
+    try (cases h)
+  simp only at h
+  split_ifs at h <;> cases h <;> simp
+
+theorem exportTiff_ok (dtype : Option DType) (clip : Bool) (frames : List (List Rat)) (dead exp : List (Int × Int))
+    (pages : List TiffPage) (h : exportTiff dtype clip frames dead exp = .ok pages) :
+    dead ≠ [] ∧ exp ≠ [] ∧ ∃ fr, framesWritten dtype clip frames = .ok fr ∧
+      pages = (fr.zip (dead.zip (exposureTimesMs exp))).map fun t => ⟨encodeRange t.2.1.1 t.2.1.2, t.2.2, t.1⟩ := by
+  unfold exportTiff at h
+  by_cases hd : dead.length = 0
+  · rw [if_pos hd] at h; cases h
+  · rw [if_neg hd] at h
+    have hdne : dead ≠ [] := fun e => hd (by rw [e]; rfl)
+    cases hfw : framesWritten dtype clip frames with
+    | error e => rw [hfw] at h; cases h
+    | ok fr =>
+      rw [hfw] at h
+      simp only at h
+      by_cases he : exp.length = 0
+      · rw [if_pos he] at h; cases h
+      · rw [if_neg he] at h
+        have hene : exp ≠ [] := fun e => he (by rw [e]; rfl)
+        simp only [Except.ok.injEq] at h
+        exact ⟨hdne, hene, fr, rfl, h.symm⟩
+
+theorem framesWritten_length (dtype : Option DType) (clip : Bool) (frames fr : List (List Rat))
+    (h : framesWritten dtype clip frames = .ok fr) : fr.length = frames.length := by
+  cases dtype with
+  | none => cases h; rfl
+  | some d => exact castFrames_length d clip frames fr h
+
+
+/-- A page of the stack-level model as the mixin writes it. -/
+def toTiff (o : OutPage Rat) : TiffPage := ⟨encodeRange o.start o.stop, exposureMs o.exposure, o.img.flatten⟩
+
+theorem zipPages_toTiff : ∀ (imgs : List (List (List Rat))) (rd re : List (Int × Int)),
+    (zipPages imgs rd (re.map fun r => r.2 - r.1)).map toTiff =
+      ((imgs.map List.flatten).zip (rd.zip (exposureTimesMs re))).map
+        fun t => (⟨encodeRange t.2.1.1 t.2.1.2, t.2.2, t.1⟩ : TiffPage) := by
+  intro imgs
+  induction imgs with
+  | nil => intro rd re; simp [zipPages]
+  | cons i is ih =>
+    intro rd re
+    cases rd with
+    | nil => simp [zipPages]
+    | cons r rs =>
+      obtain ⟨a, b⟩ := r
+      cases re with
+      | nil => simp [zipPages, exposureTimesMs]
+      | cons e es =>
+        have := ih rs es
+        simp only [exposureTimesMs] at this ⊢
+        simp only [List.map_cons, zipPages, List.zip_cons_cons, this, toTiff]
+
+theorem ranges_length {α} (s : Stack) (f : File α) (dead : Bool) (r : List (Int × Int))
+    (h : s.ranges f dead = some r) : r.length = (s.visible f).length := by
+  unfold Stack.ranges at h
+  by_cases hd : dead = true
+  · rw [if_pos hd] at h
+    by_cases hl : f.legacy = true
+    · rw [if_pos hl] at h
+      by_cases hne : ((s.visible f).map fun p => (p.start, p.stop)) = []
+      · rw [hne] at h; cases h
+      · obtain ⟨r', hr', hlen, _⟩ := legacy_frame_ranges_len _ hne
+        rw [h] at hr'
+        cases hr'
+        rw [hlen, List.length_map]
+    · rw [if_neg hl] at h
+      cases h
+      rw [List.length_map]
+  · rw [if_neg hd] at h
+    cases h
+    rw [List.length_map]
+
+/-! ## Part IX — Software tag -/
+
+theorem hasSub_iff (pat : List Char) : ∀ l : List Char,
+    hasSub pat l = true ↔ ∃ pre post, l = pre ++ pat ++ post := by
+  intro l
+  induction l with
+  | nil =>
+    unfold hasSub
+    constructor
+    · intro h
+      have : pat = [] := List.isEmpty_iff.mp h
+      exact ⟨[], [], by simp [this]⟩
+    · rintro ⟨pre, post, h⟩
+      have h' := h.symm
+      simp only [List.append_eq_nil_iff] at h'
+      rw [h'.1.2]; rfl
+  | cons c cs ih =>
+    unfold hasSub
+    rw [Bool.or_eq_true, List.isPrefixOf_iff_prefix, ih]
+    constructor
+    · rintro (⟨t, ht⟩ | ⟨pre, post, h⟩)
+      · exact ⟨[], t, by simp [ht]⟩
+      · exact ⟨c :: pre, post, by simp [h]⟩
+    · rintro ⟨pre, post, h⟩
+      cases pre with
+      | nil => left; exact ⟨post, by simpa using h.symm⟩
+      | cons p ps =>
+        right
+        simp only [List.cons_append, List.cons.injEq] at h
+        exact ⟨ps, post, h.2⟩
+
+theorem lower_pylake : ("Pylake v".toList).map lowerAscii = "pylake v".toList := by decide
+
+theorem softwareOut_marked (sw ver : List Char) :
+    hasSub "pylake".toList ((softwareOut sw ver).map lowerAscii) = true := by
+  unfold softwareOut
+  by_cases h : hasSub "pylake".toList (sw.map lowerAscii) = true
+  · rw [if_pos h]; exact h
+  · rw [if_neg h]
+    rw [hasSub_iff]
+    refine ⟨(sw ++ (if sw.length > 0 then ", ".toList else [])).map lowerAscii, " v".toList ++ ver.map lowerAscii, ?_⟩
+    simp only [List.map_append, lower_pylake]
+    simp
+
+theorem softwareOut_idem (sw ver : List Char) : softwareOut (softwareOut sw ver) ver = softwareOut sw ver := by
+  have h := softwareOut_marked sw ver
+  generalize softwareOut sw ver = o at h ⊢
+  unfold softwareOut
+  rw [if_pos h]
+
+theorem softwareOut_prefix (sw ver : List Char) : ∃ t, softwareOut sw ver = sw ++ t := by
+  unfold softwareOut
+  by_cases h : hasSub "pylake".toList (sw.map lowerAscii) = true
+  · rw [if_pos h]; exact ⟨[], by simp⟩
+  · rw [if_neg h]
+    exact ⟨(if sw.length > 0 then ", ".toList else []) ++ "Pylake v".toList ++ ver, by simp only [List.append_assoc]⟩
+
+/-! ## Part X — alignment keys of `for_export` -/
+
+
+theorem renameKey_ne_c0 (k : List Char) : renameKey k ≠ c0Key := by
+  unfold renameKey
+  split_ifs with h0 h1 h2
+  · decide
+  · decide
+  · decide
+  · exact h0
+
+theorem appliedKey_a0 : appliedKey a0Key = true := by decide
+theorem appliedKey_pylake : appliedKey pylakeKey = false := by decide
+theorem pylake_ne_c0 : pylakeKey ≠ c0Key := by decide
+
+theorem contains_c0_addPylake (ks : List (List Char)) : (addPylake ks).contains c0Key = ks.contains c0Key := by
+  unfold addPylake
+  split_ifs
+  · rfl
+  · rw [List.contains_eq_mem, List.contains_eq_mem]
+    simp only [List.mem_append, List.mem_singleton]
+    have : c0Key ≠ pylakeKey := fun h => pylake_ne_c0 h.symm
+    simp [this]
+
+theorem any_applied_addPylake (ks : List (List Char)) : (addPylake ks).any appliedKey = ks.any appliedKey := by
+  unfold addPylake
+  split_ifs
+  · rfl
+  · rw [List.any_append]; simp [appliedKey_pylake]
+
+theorem status_addPylake (rgb : Bool) (ks : List (List Char)) : alignStatus rgb (addPylake ks) = alignStatus rgb ks := by
+  unfold alignStatus
+  rw [contains_c0_addPylake, any_applied_addPylake]
+
+theorem addPylake_contains (ks : List (List Char)) : (addPylake ks).contains pylakeKey = true := by
+  unfold addPylake
+  by_cases h : ks.contains pylakeKey = true
+  · rw [if_pos h]; exact h
+  · rw [if_neg h, List.contains_eq_mem]; simp
+
+theorem addPylake_idem (ks : List (List Char)) : addPylake (addPylake ks) = addPylake ks := by
+  have h := addPylake_contains ks
+  generalize addPylake ks = k at h ⊢
+  unfold addPylake
+  rw [if_pos h]
+
+theorem status_renamed (keys : List (List Char)) (h : keys.contains c0Key = true) :
+    alignStatus true (keys.map renameKey) = .applied := by
+  unfold alignStatus
+  have h1 : (keys.map renameKey).contains c0Key = false := by
+    rw [List.contains_eq_mem, decide_eq_false_iff_not, List.mem_map]
+    rintro ⟨k, _, hk⟩
+    exact renameKey_ne_c0 k hk
+  have h2 : (keys.map renameKey).any appliedKey = true := by
+    rw [List.any_eq_true]
+    refine ⟨a0Key, ?_, appliedKey_a0⟩
+    rw [List.mem_map]
+    have hm : c0Key ∈ keys := by
+      rw [List.contains_eq_mem] at h; exact of_decide_eq_true h
+    exact ⟨c0Key, hm, by unfold renameKey; rw [if_pos rfl]⟩
+  rw [h1, h2]
+  rfl
+
+theorem ready_iff (rgb : Bool) (keys : List (List Char)) :
+    alignStatus rgb keys = .ready ↔ rgb = true ∧ keys.contains c0Key = true := by
+  unfold alignStatus
+  cases rgb
+  · simp
+  · simp only [Bool.not_true, Bool.false_eq_true, if_false]
+    by_cases h : keys.contains c0Key = true
+    · rw [if_pos h]; exact ⟨fun _ => ⟨trivial, h⟩, fun _ => rfl⟩
+    · rw [if_neg h]
+      constructor
+      · intro h'; split_ifs at h'
+      · intro h'; exact absurd h'.2 h
+
 end Verif.C18
